@@ -29,7 +29,9 @@ SubSets == { {}, {"uploads"}, {"uploadId"}, {"versioning"}, {"versions"}, {"vers
 ValueParams == {"uploadId", "versionId", "partNumber", "list-type", "max-keys", "marker", "key-marker", "version-id-marker",
                 "max-parts", "part-number-marker", "max-uploads", "continuation-token", "start-after", "prefix", "delimiter",
                 "upload-id-marker", "fetch-owner", "encoding-type"}
-ValueClasses == {"valid", "empty", "nonnumeric", "negative", "zero", "one", "huge", "over63", "unknown", "weird"}
+\* (max63 / min63 / max31: exactly the largest and smallest 64-bit and the largest 32-bit signed integers)
+ValueClasses == {"valid", "empty", "nonnumeric", "negative", "zero", "one", "huge", "over63", "max63", "min63", "max31",
+                 "unknown", "weird"}
 
 HeaderVars == {[h |-> "Range", v |-> x] : x \in {"bytes=0-1", "bytes=5-9223372036854775807", "bytes=-0", "bytes=9-1", "junk", "bytes=0-0,1-1"}}
          \cup {[h |-> "Content-MD5", v |-> x] : x \in {"junk", "", "MTIzNDU="}}
